@@ -58,6 +58,23 @@ mutual
     | x :: xs => frames j x ++ framesL j xs
 end
 
+mutual
+  /-- frames of **all** bindings inside a node, in document order -/
+  def allFrames : Node → List Frame
+    | atom _ => []
+    | ident _ => []
+    | set _ vs o _ _ => allFramesL vs ++ allFramesL o
+    | bind i n ne v b a => (i, n, ne, b, a) :: allFrames v
+    | inherit _ _ => []
+    | entry _ leaf _ _ => allFrames leaf
+  def allFramesL : List Node → List Frame
+    | [] => []
+    | x :: xs => allFrames x ++ allFramesL xs
+end
+
+/-- every binding inside the node has a frame satisfying `P` -/
+def AllF (P : Frame → Prop) (n : Node) : Prop := ∀ x ∈ allFrames n, P x
+
 end Node
 
 open Node
